@@ -28,7 +28,7 @@ RULE = ("registry shape (empty/dense/sparse/with 0,254,255/random subset) + 1-12
 REAL = ["aiomysensors.Gateway.listen", "id request handler", "Node", "send path"]
 STUB = ["event loop (SimLoop)", "transport (SimTransport with latency tape)"]
 ASSUMPTIONS = ["constraints from the property text are the oracle"]
-REQUIRED_PROBES = ["sparse_registry", "registry_has_0", "registry_has_254", "registry_has_255", "too_many_nodes",
+REQUIRED_PROBES = ["context_reentered", "sparse_registry", "registry_has_0", "registry_has_254", "registry_has_255", "too_many_nodes",
                    "two_requests", "request_after_presentation_of_handed_out_id", "dense_to_limit"]
 ASPECTS = ("idalloc",)
 SPREAD = [0, 1, 2, 7, 100, 253, 254, 255]
@@ -84,7 +84,16 @@ def _gen(seed: int, i: int, tier: str) -> dict:
             ops.append(["relisten"])
     lat = [rng.choice([0, 1, 3]) for _ in range(rng.randint(0, 10))]
     pin = proto if rng.random() < 0.7 else None
-    return {"cfg": {"pin": pin}, "proto": proto, "ops": ops, "tapes": {"w.lat": lat}, "ids": ids}
+    cfg = {"pin": pin}
+    if i % 6 == 5:
+        # persistence configured: ids handed out in one session must stay taken in the next session on the same
+        # gateway object, also when the final save of the first session failed (registry ahead of the file)
+        cfg["persist"] = True
+        k = rng.randint(1, max(1, len(ops)))
+        tail = [["diskfault", rng.choice(["open", "write"]), [rng.choice(["ENOSPC", "EIO"])]]] if rng.random() < 0.7 else []
+        ops = ops[:k] + tail + [["reenter"]] + [["line", "255;255;3;0;3;\n"] for _ in range(rng.randint(1, 3))] + ops[k:]
+        lat = []
+    return {"cfg": cfg, "proto": proto, "ops": ops, "tapes": {"w.lat": lat}, "ids": ids}
 
 
 def gen(seed: int, i: int, tier: str) -> dict:
